@@ -268,6 +268,34 @@ theorem C07_cx_edge_keyword_empty : edgeKeywordOld 1 [] = .error .indexRange := 
 
 example : edgeKeyword [.plain, .prohibited] = .ok (some 1) := by decide
 
+/-! ### EdgeID.resolve -/
+
+theorem strip_ok (p : UPath) : ∃ q, strip p = .ok q := by
+  match p with
+  | [] => exact ⟨_, rfl⟩
+  | true :: t => exact ⟨_, rfl⟩
+  | false :: t => exact ⟨_, rfl⟩
+
+theorem iterBoth_strip_ok (n : Nat) : ∀ s d, ∃ r, iterBoth strip n s d = .ok r := by
+  induction n with
+  | zero => intro s d; exact ⟨_, rfl⟩
+  | succ k ih =>
+    intro s d
+    obtain ⟨s', hs⟩ := strip_ok s
+    obtain ⟨d', hd⟩ := strip_ok d
+    unfold iterBoth
+    rw [hs, hd]
+    exact ih s' d'
+
+theorem resolve_total (s d : UPath) (c : Crash) : resolve s d ≠ .error c := by
+  obtain ⟨r, hr⟩ := iterBoth_strip_ok (max (countUnderscores s) (countUnderscores d)) s d
+  unfold resolve; rw [hr]; simp
+
+/-- Counterexample (replayed: `c: { _ -> _._.x }` → index out of range [0] with length 0 in `EdgeID.resolve`) -/
+theorem C07_cx_resolve_underscores : resolveOld [true] [true, true, false] = .error .indexRange := by decide
+
+example : resolve [true] [true, true, false] = .ok ([false], [false]) := by decide
+
 /-! ### class application -/
 
 /-- Counterexample (replayed: `classes: {a: {class: a}}⏎x.class: a` → fatal stack overflow): the old
